@@ -163,4 +163,51 @@ def obligations(tier):
             claim="quote2(local@h) is local-part@h where the local part is either the original bytes forming an RFC 822 dot-atom, or one "
                   "RFC 822 quoted-string (no unescaped quote, backslash or CR) whose meaning is exactly the original bytes",
             expect_witnesses=lambda p: (["quoted_empty"] if p["N"] == 0 else ["unquoted", "quoted_special"] + (["quoted_dots"] if p["N"] >= 1 else []))),
+            Obl("inject_field", "inject_field.c",
+            progs=[Prog("qmail-inject.c", nomain=True, cut=["savedh_append"]),
+                   Prog("token822.c", cut=["token822_parse", "token822_addrlist", "token822_unparse"], link=True)],
+            repo=["hfield.c", "stralloc_opyb.c", "stralloc_copy.c", "stralloc_cats.c", "stralloc_catb.c", "stralloc_opys.c", "byte_copy.c"],
+            lib=["harness/C17/arena_small.c", "ideal_substdio.c"],
+            sysrename=["malloc", "realloc", "_exit"],
+            defines={"ARENA_SLOTS": 2, "ARENA_CAP": 12},
+            grid=[{"HL": n} for n in (range(2, 19) if tier == "quick" else range(2, 38))],
+            unwind=lambda p: {"hmatch": p["HL"] + 2, "hfield_known": 30, "hfield_valid": p["HL"] + 2, "strlen": 64, "substdio_put": 64},
+            unwind_default=lambda p: p["HL"] + 3,
+            backend="cadical", timeout=900,
+            functions=["qmail-inject.c:doheaderfield", "qmail-inject.c:rwtocc", "qmail-inject.c:rwhr", "qmail-inject.c:rwhrr", "qmail-inject.c:rwgeneric",
+                       "qmail-inject.c:rwappend", "hfield.c:hfield_known", "hfield.c:hfield_valid", "token822.c:token822_unquote", "token822.c:token822_reverse"],
+            cuts=["savedh_append -> observed", "token822_parse/token822_addrlist/token822_unparse -> succeed or fail by a symbolic tape; a succeeding "
+                  "addrlist hands the address a@h.x to the callback it was given (address-list parsing itself: header_roundtrip, addrlist_forms)"],
+            stubs=["_exit: records, ends the path", "substdio: ideal streams (messages discarded)", "malloc: one fixed block for the first envelope list"],
+            assumes=["one header field of exactly HL bytes ending in LF, all other bytes symbolic; QMAILINJECT f/i/s flags symbolic"],
+            outside=["field names written with white space before the colon (accepted by hfield.c, not described in the documents): not compared"],
+            claim="doheaderfield() never keeps a Bcc, Resent-Bcc, Return-Path or Content-Length field (any case), keeps every other accepted "
+                  "field exactly once (From/Message-ID unless deleted by flag), and exactly To/Cc/Bcc/Apparently-To feed hrlist, Resent-To/Cc/Bcc hrrlist",
+            expect_witnesses=lambda p: (["kept"] + (["refused"] if p["HL"] >= 2 else [])
+                                        + (["bcc_deleted", "bcc_feeds_envelope"] if p["HL"] >= 5 else [])
+                                        + (["from_deleted_by_flag"] if p["HL"] >= 6 else [])
+                                        + (["resent_bcc_deleted", "resent_feeds_envelope"] if p["HL"] >= 12 else [])
+                                        + (["return_path_deleted"] if p["HL"] >= 13 else []))),
+            Obl("addrlist_forms", "addrlist_forms.c",
+            progs=[Prog("qmail-inject.c", nomain=True)],
+            repo=["token822.c", "stralloc_opyb.c", "stralloc_copy.c", "stralloc_cats.c", "stralloc_catb.c", "stralloc_opys.c", "byte_copy.c"],
+            lib=["harness/C17/arena_small.c", "ideal_substdio.c"],
+            sysrename=["malloc", "realloc", "_exit"],
+            defines={"ARENA_SLOTS": 4, "ARENA_CAP": 12},
+            grid=[{"FORM": f} for f in range(1, 21)],
+            unwind={"strlen": 64, "substdio_put": 64}, unwind_default=34,
+            backend="cadical", timeout=600,
+            functions=["token822.c:token822_addrlist", "token822.c:gotaddr", "token822.c:token822_unquote", "token822.c:token822_reverse",
+                       "qmail-inject.c:rwtocc", "qmail-inject.c:rwgeneric", "qmail-inject.c:rwroute", "qmail-inject.c:rwextradot",
+                       "qmail-inject.c:rwextraat", "qmail-inject.c:rwnoat", "qmail-inject.c:rwplus", "qmail-inject.c:rwnodot", "qmail-inject.c:rwappend"],
+            stubs=["stralloc_ready/readyplus: arena", "malloc/realloc: must not be reached (arrays pre-sized)", "_exit: must not be reached"],
+            assumes=["token list of a To: field built by the harness in one of 20 concrete syntactic forms (plain, lone box, no-dot host, plus host, "
+                     "phrase <addr>, comments before/after/inside, quoted local part, domain literal, source route, group, missing comma, "
+                     "two mailboxes, dotted local part, quoted phrase, empty element, empty group); atoms are single symbolic RFC 822 atom "
+                     "characters (not '+'), the quoted local part is any non-NUL byte; defaults dh / dd / pd"],
+            outside=["text -> token list (token822_parse): header_roundtrip", "atoms longer than one byte; more than two mailboxes",
+                     "-a/-h/-H/-f option handling in main, QMAILINJECT flags, folding at LINELEN"],
+            claim="for each form, token822_addrlist + rwtocc put exactly the mailboxes known by construction (after default host, default "
+                  "domain, plus domain, route stripping) on the header recipient list, in some order",
+            expect_witnesses=["form_done"]),
     ]
